@@ -63,7 +63,10 @@ impl ImplementsGraph {
                 .into_iter()
                 .map(|idx| self.graph[idx].clone())
                 .collect(),
-            Err(_) => self.by_name.keys().cloned().collect(),
+            // Nodes are never removed, so node index order is insertion
+            // order. `by_name` is a `HashMap`: iterating it here would make
+            // the result differ from run to run.
+            Err(_) => self.graph.node_weights().cloned().collect(),
         }
     }
 
